@@ -157,6 +157,11 @@ def cases(block):
                 for modes in ((0, 2) if dim > 1 else (0, 1)):
                     for iw in IW:
                         yield {"part": p, "grid": g, "field": block["field"], "threshold": thr, "modes": modes, "iw": iw, "refine": False, "minr": 0.0}
+            # many / odd numbers of modes (beyond any table of low-degree harmonics), unrefined and - for 2-d boxes - refined
+            for modes in ((5, 7, 12) if dim == 2 else (10, 26, 40) if dim == 3 else ()):
+                yield {"part": p, "grid": g, "field": block["field"], "threshold": 0.5, "modes": modes, "iw": None, "refine": False, "minr": 0.0}
+                if dim == 2 and g["kind"] == "cart" and max(g["shape"]) <= 12 and block["field"] in ("single", "sin", "blob"):
+                    yield {"part": p, "grid": g, "field": block["field"], "threshold": 0.5, "modes": modes, "iw": None, "refine": True, "rargs": 0, "minr": 0.0}
             return
         slow = dim == 3 and g["kind"] == "cart" and min(g["shape"]) > 3
         quick = block["tier"] != "thorough"
